@@ -21,7 +21,9 @@ ASSUMPTIONS = [
 LEVEL_TEXT = ("Theorems over all child-status lists (no length bound) for the three compute_status roll-ups and the "
               "status classification, proved in Coq against predicate tables regenerated from the working tree; "
               "the hand-written roll-up models are compared with the real compute_status methods on every child tuple "
-              "up to length 3-5 plus random longer ones, and a Python oracle states the property's sentences directly on the implementation.")
+              "up to length 3-5 plus random longer ones, and a Python oracle states the property's sentences directly on the implementation; "
+              "re-running one Scenario object (two attempts with different step outcomes and raising scenario / step hooks in either "
+              "attempt) is compared with a fresh run of the latest attempt.")
 LEVEL_NOTE = ("Trusted: Coq kernel + vm_compute; gen_tables.py (tabulates Status predicates by importing /repo); the case-file "
               "encoder; forced child statuses on real model objects.  Known findings (first-decisive precedence, skip-by-step) are "
               "kept as machine-checked *_refuted witnesses.")
@@ -327,6 +329,9 @@ def suites(tier, seed):
                 "histogram": rc.histogram, "shrink": rc.shrink_program,
                 "bound": "%d seeded random programs run through the real runner (hook faults, --stop, abort, dry-run, tag selection)" % len(progs),
                 "coq": rc.COQ})
+    # -- re-running an element: statuses depend only on the latest run
+    from props import c02
+    out.append(c02.rerun_suite(tier, rnd))
     return out
 
 
